@@ -3,7 +3,9 @@
 sets RECORDER so that their calls appear in its hook log like those of the
 scripted hooks."""
 
-RECORDER = None
+# (the daemon re-imports this module when a hook is set at run time: the
+# recorder survives the reload)
+RECORDER = globals().get('RECORDER')
 
 
 def _note(watcher, hook_name, out, kw):
